@@ -16,6 +16,9 @@ Import ListNotations.
 Require Import PV.TypeVar.Base PV.TypeVar.Model PV.TypeVar.Spec PV.TypeVar.Simple PV.Call.Model.
 Require Import PV.Binder.Kind PV.Binder.Sig PV.Binder.Bind PV.Binder.PyBind.
 Require PV.Proofs.BinderStar.
+Require Import PV.Proofs.CallSelf.
+Require PV.Overload.Resolve.
+Require Import PV.Proofs.CallOverload.
 Require Import PV.Proofs.CallMain PV.Proofs.CallAtoms PV.Proofs.SolveAtoms PV.Proofs.CallCore.
 Require PV.Core.Obj PV.Core.Val PV.Core.Cls PV.Core.Member PV.Core.CanAssignK PV.Proofs.C03Main.
 Require Import PV.Gen.Solve PV.Gen.SolveAtoms PV.Gen.CallObjs PV.Gen.CheckCall.
@@ -45,6 +48,49 @@ Theorem C06_bound_star_call_has_binding_expansion : forall (V : Type) (s : @csig
   exists npos' kws', PV.Proofs.BinderStar.expansion (actuals_of c) npos' kws' /\ py_bind (sig_of s) npos' kws' = true.
 Proof. exact @bound_star_call_has_binding_expansion. Qed.
 Print Assumptions C06_bound_star_call_has_binding_expansion.
+
+(* bind_self (methods, classmethods, constructors / dataclass __init__): index-shift lemma over the
+   C05 binder — binding (receiver :: s) against one more definite positional in front is binding s
+   against the original arguments with every positional index shifted by one ... *)
+Theorem C06_binder_receiver_shift : forall (a : actuals) (p0 : param),
+  pkind p0 = POK \/ pkind p0 = PO -> kw_lookup (pname p0) (keywords a) = None ->
+  forall s, bind (p0 :: s) (a' a) = option_map (fun r => e0 p0 :: map she r) (bind s a).
+Proof. exact bind_shift. Qed.
+Print Assumptions C06_binder_receiver_shift.
+
+(* ... hence a method / classmethod / constructor call is checked exactly like the call of the
+   underlying function with the receiver prepended: same diagnostics, same inferred type (the
+   receiver parameter is positional, unannotated, and not passed by keyword) *)
+Theorem C06_check_call_with_receiver :
+  forall (V : Type) (O : ops V) limit none_v (s : @csig V) selfp c selfv,
+  pkind (cp selfp) = POK \/ pkind (cp selfp) = PO -> ann selfp = AnnNone ->
+  kw_lookup (pname (cp selfp)) (keywords (actuals_of c)) = None ->
+  check_call O limit none_v (with_receiver s selfp) (call_with_receiver c selfv) = check_call O limit none_v s c.
+Proof. exact @check_call_with_receiver. Qed.
+Print Assumptions C06_check_call_with_receiver.
+
+(* C08 composed: an overloaded callee whose overloads are signatures of the call model (generic
+   or not).  The per-overload acceptance that the C08 resolver model (Overload/Resolve.v) takes as an
+   abstract function is instantiated with the C06 verdict; union-free, Any-free call (the call
+   model does not track "matched due to Any", and union decomposition is C08's own subject):
+   the call is typed with the return type of the first overload whose own check is clean ... *)
+Theorem C06_overloaded_call_first_clean :
+  forall (V : Type) (O : ops V) limit none_v (c : @ccall V) (ovs : list (@csig V * PV.Overload.Resolve.rtype)),
+  PV.Overload.Resolve.resolve (map (osig_of O limit none_v c) ovs) (PV.Overload.Resolve.singletons [0]) =
+  match find (fun sr => negb (diagnosed O limit none_v (fst sr) c)) ovs with
+  | Some sr => PV.Overload.Resolve.RTypes [snd sr]
+  | None => PV.Overload.Resolve.RErr
+  end.
+Proof. exact @overloaded_call_first_clean. Qed.
+Print Assumptions C06_overloaded_call_first_clean.
+
+(* ... and diagnosed iff every overload's own check diagnoses it *)
+Theorem C06_overloaded_call_diagnosed_iff :
+  forall (V : Type) (O : ops V) limit none_v (c : @ccall V) (ovs : list (@csig V * PV.Overload.Resolve.rtype)),
+  PV.Overload.Resolve.resolve (map (osig_of O limit none_v c) ovs) (PV.Overload.Resolve.singletons [0]) = PV.Overload.Resolve.RErr <->
+  forall sr, In sr ovs -> diagnosed O limit none_v (fst sr) c = true.
+Proof. exact @overloaded_call_diagnosed_iff. Qed.
+Print Assumptions C06_overloaded_call_diagnosed_iff.
 
 (* signatures without type variables: one incompatible_argument per parameter with a
    rejected argument value, and nothing else — all parameter kinds, star arguments included *)
